@@ -491,9 +491,7 @@ class EncodeIntSpec(KernelSpec):
 
 
 def exact_cmp(opn, iv, fv):
-    """mathematically exact comparison of an i64 value with an f64 constant: both are converted (exactly) to a binary
-    floating-point sort with a 113-bit significand and compared there; NaN is excluded by the obligations"""
-    Q = z3.FPSort(15, 113)
+    """mathematically exact comparison of an i64 value with a (non-NaN) f64 constant"""
     if iv.concrete and fv.concrete:
         from fractions import Fraction
         import struct
@@ -506,26 +504,38 @@ def exact_cmp(opn, iv, fv):
         else:
             a, b = Fraction(iv.v), Fraction(f)
         return I("bool", {"Eq": a == b, "Ne": a != b, "Lt": a < b, "Le": a <= b, "Gt": a > b, "Ge": a >= b}[opn])
-    A = z3.fpSignedToFP(z3.RNE(), iv.z(), Q)
-    Bq = z3.fpFPToFP(z3.RNE(), z3.fpBVToFP(fv.z(), z3.Float64()), Q)
-    r = {"Eq": z3.fpEQ(A, Bq), "Ne": z3.Not(z3.fpEQ(A, Bq)), "Lt": z3.fpLT(A, Bq), "Le": z3.fpLEQ(A, Bq), "Gt": z3.fpGT(A, Bq), "Ge": z3.fpGEQ(A, Bq)}[opn]
+    # symbolic: v vs c with f64-sort operations only.  vf = RNE(v) as f64.  Rounding is monotone, so if vf != c then
+    # cmp(v, c) == cmp(vf, c).  If vf == c, c is an integer: c >= 2^63 means v < c (v <= i64::MAX), otherwise c converts to
+    # i64 exactly and the integers are compared.
+    F = z3.Float64()
+    vf = z3.fpSignedToFP(z3.RNE(), iv.z(), F)
+    c = z3.fpBVToFP(fv.z(), F)
+    big = z3.fpGEQ(c, z3.FPVal(2.0 ** 63, F))
+    ci = z3.fpToSBV(z3.RTZ(), c, z3.BitVecSort(64))
+    same = z3.fpEQ(vf, c)
+    lt = z3.If(same, z3.Or(big, iv.z() < ci), z3.fpLT(vf, c))
+    eq = z3.And(same, z3.Not(big), iv.z() == ci)
+    r = {"Eq": eq, "Ne": z3.Not(eq), "Lt": lt, "Le": z3.Or(lt, eq), "Gt": z3.Not(z3.Or(lt, eq)), "Ge": z3.Not(lt)}[opn]
     return I("bool", r)
 
 
 class EncodeFloatSpec(KernelSpec):
     """Codec::encode_float(c): the float WHERE-constant translated into the encoding domain of an integer column stored as
     e: T with codec [Add(T, y)] / [ToI64(T)].  The kernels then compare `e as f64 OP encode_float(c)`.  Oracle: the mathematically exact
-    comparison of the decoded integer e + y with the constant c (both embedded exactly in a 113-bit-significand float sort).
-    Two modes: 'grid' = constants k / 2^10 with |k| < 2^51 and |y| < 2^41, where every f64 operation involved is exact;
+    comparison of the decoded integer e + y with the constant c (exact_cmp).
+    Two modes: 'grid' = constants k / 2^f with few bits and small offsets (GRID), where every f64 operation involved is exact;
     'full' = every non-NaN f64 constant and every offset the builder can emit."""
     method = ("Codec", None, "encode_float")
     diff_cases = 4
     OPS = (("=", "Eq"), ("<", "Lt"), ("<=", "Le"), (">", "Gt"), (">=", "Ge"), ("<>", "Ne"))
 
+    # (bits of k, fractional bits, bits of the offset): f64 unsat proofs cost 15-45 s each whatever the domain, so the grid is small
+    GRID = {"quick": (12, 1, 8), "thorough": (16, 2, 10)}
+
     def instantiations(self, tier):
-        ts = ("u8", "u32") if tier == "quick" else ("u8", "u16", "u32")
-        return [{"T": t, "kind": k, "mode": m, "nat": "codec_encode_float"} for t in ts for k in ("Add", "ToI64") for m in ("grid", "full")
-                if not (tier == "quick" and m == "full" and t != "u8")]
+        ts = ("u8",) if tier == "quick" else ("u8", "u16", "u32")
+        return [{"T": t, "kind": k, "mode": m, "tier": tier, "nat": "codec_encode_float"} for t in ts for k in ("Add", "ToI64") for m in ("grid", "full")
+                if not (m == "full" and t != "u8")]
 
     def sym_inputs(self, inst, shape):
         t = inst["T"]
@@ -534,9 +544,10 @@ class EncodeFloatSpec(KernelSpec):
         if inst["mode"] == "grid":
             k = sym("i64", "k")
             inp["k"] = k
-            pre += [k.v > -(1 << 51), k.v < (1 << 51)]
+            kb, fb, yb = self.GRID[inst["tier"]]
+            pre += [k.v > -(1 << kb), k.v < (1 << kb)]
             kf = z3.fpSignedToFP(z3.RNE(), k.v, z3.Float64())
-            c = z3.fpMul(z3.RNE(), kf, z3.FPVal(2.0 ** -10, z3.Float64()))
+            c = z3.fpMul(z3.RNE(), kf, z3.FPVal(2.0 ** -fb, z3.Float64()))
             inp["c"] = I("f64", z3.fpToIEEEBV(c))
         else:
             c = sym("f64", "c")
@@ -548,7 +559,8 @@ class EncodeFloatSpec(KernelSpec):
             pre.append(z3.Not(s.fields[1].z()))
             pre.append(inp["y"].v != 0)
             if inst["mode"] == "grid":
-                pre += [inp["y"].v > -(1 << 41), inp["y"].v < (1 << 41)]
+                yb = self.GRID[inst["tier"]][2]
+                pre += [inp["y"].v > -(1 << yb), inp["y"].v < (1 << yb)]
         return inp, pre
 
     def explore(self, ctx, ex, fn, inst, shape, inp, pre):
@@ -562,7 +574,7 @@ class EncodeFloatSpec(KernelSpec):
     FULL_LABEL = "decoded OP constant <=> encoded OP translated constant for all six operators (all non-NaN f64 constants, all offsets: includes constants whose translation x - offset rounds)"
 
     def label(self, inst, name):
-        return f"decoded {name} constant <=> encoded {name} translated constant (constants on the 2^-10 grid with |c| < 2^41, |offset| < 2^41: every f64 operation exact)"
+        return f"decoded {name} constant <=> encoded {name} translated constant (constants with few fractional bits and small offsets: every f64 operation exact)"
 
     def post(self, inst, shape, inp, value, state=None):
         from ..mirsym.values import cast_int_to_float
@@ -585,10 +597,11 @@ class EncodeFloatSpec(KernelSpec):
         inp = {"e": e}
         y = 0
         if inst["kind"] == "Add":
-            y = rng.choice([-5, 1000, -2**30, 2**20, 77])
+            y = rng.choice([-5, 100, -200, 77, 1])
             inp["y"] = I("i64", y)
-        k = (y + e.v + rng.randint(-3, 3)) * 1024 + rng.choice([0, 1, 512, 1023, -1])
-        c = k / 1024.0
+        fb = self.GRID[inst["tier"]][1]
+        k = (y + e.v + rng.randint(-3, 3)) * (1 << fb) + rng.choice([0, 1, -1])
+        c = k / float(1 << fb)
         if inst["mode"] == "grid":
             inp["k"] = I("i64", k)
         inp["c"] = I("f64", struct.unpack("<Q", struct.pack("<d", c))[0])
